@@ -95,9 +95,22 @@ func NPMUniverse(o NPMOpts) *rapid.Generator[Universe] {
 		n := npkgs(t)
 		u := Universe{System: "npm"}
 		density := rapid.IntRange(1, 4).Draw(t, "density")
+		// first pass: versions, so that requirements can aim at existing ones
+		vlists := make([][]string, n)
+		for i := 0; i < n; i++ {
+			vlists[i] = pickDistinct(t, npmVersionPool, rapid.IntRange(1, 5).Draw(t, "nv"), "versions")
+		}
+		aimed := func(target int) string {
+			v := rapid.SampledFrom(vlists[target]).Draw(t, "aim")
+			base := v
+			if j := strings.IndexByte(base, '-'); j > 0 && rapid.Bool().Draw(t, "striptag") {
+				base = base[:j]
+			}
+			return rapid.SampledFrom([]string{"^" + v, "~" + v, v, ">=" + v, "<=" + v, "^" + base, "~" + base, ">=" + base + " <" + nextMajor(base), "=" + v, base[:1] + ".x"}).Draw(t, "aimform")
+		}
 		for i := 0; i < n; i++ {
 			p := UPkg{Name: names[i]}
-			vs := pickDistinct(t, npmVersionPool, rapid.IntRange(1, 5).Draw(t, "nv"), "versions")
+			vs := vlists[i]
 			tagged := -1
 			if rapid.IntRange(0, 2).Draw(t, "hastag") == 0 {
 				tagged = rapid.IntRange(0, len(vs)-1).Draw(t, "tagged")
@@ -113,11 +126,15 @@ func NPMUniverse(o NPMOpts) *rapid.Generator[Universe] {
 				nr := rapid.IntRange(0, density).Draw(t, "nreq")
 				used := map[string]bool{}
 				for k := 0; k < nr; k++ {
-					r := UReq{Name: names[rapid.IntRange(0, n-1).Draw(t, "target")]}
-					if rapid.IntRange(0, 14).Draw(t, "missing") == 0 {
+					ti := rapid.IntRange(0, n-1).Draw(t, "target")
+					r := UReq{Name: names[ti]}
+					missing := rapid.IntRange(0, 19).Draw(t, "missing") == 0
+					if missing {
 						r.Name = "missing"
 					}
 					switch kk := rapid.IntRange(0, 19).Draw(t, "reqkind"); {
+					case kk < 11 && !missing:
+						r.Req = aimed(ti)
 					case kk < 16:
 						r.Req = rapid.SampledFrom(npmRanges).Draw(t, "range")
 					case kk < 18:
@@ -145,12 +162,21 @@ func NPMUniverse(o NPMOpts) *rapid.Generator[Universe] {
 						// copies without end (recorded finding, C04); excluded by
 						// construction so that the search continues.
 						if o.Aliases && i < n-1 {
-							r.Name = names[rapid.IntRange(i+1, n-1).Draw(t, "aliastarget")]
-							// alias names never equal a package name, for the same reason
+							ti = rapid.IntRange(i+1, n-1).Draw(t, "aliastarget")
+							r.Name = names[ti]
+							if rapid.Bool().Draw(t, "aimalias") {
+								r.Req = aimed(ti)
+							}
 							r.Type = "KnownAs " + rapid.SampledFrom([]string{"al1", "al2", "al3"}).Draw(t, "alias")
 						}
 					}
+					// package.json sections are maps keyed by the dependency name
+					// (the alias if there is one): a name occurs once per section,
+					// and an alias once per version.
 					key := r.Name + "|" + r.Type
+					if strings.HasPrefix(r.Type, "KnownAs ") {
+						key = "alias|" + strings.TrimPrefix(r.Type, "KnownAs ")
+					}
 					if used[key] {
 						continue
 					}
@@ -163,6 +189,18 @@ func NPMUniverse(o NPMOpts) *rapid.Generator[Universe] {
 		}
 		return u
 	})
+}
+
+func nextMajor(v string) string {
+	switch v[:1] {
+	case "0":
+		return "1.0.0"
+	case "1":
+		return "2.0.0"
+	case "2":
+		return "3.0.0"
+	}
+	return "4.0.0"
 }
 
 // ---- Maven ------------------------------------------------------------------------
